@@ -53,10 +53,15 @@ FnOf(e) == IF e = "xcrypt_r" THEN "crypt_r" ELSE IF e \in {"fcrypt", "xcrypt"} T
 
 \* ---- outcome of the request according to the specification -------------
 Star1(s) == S!At(s, 1) = 42 /\ S!At(s, 2) = 48
-SpecOutcome(ev) ==
+SpecOutcomeOf(ev) ==
   IF ev.pnull = 1 \/ ev.snull = 1
     THEN [k |-> "fail", err |-> EINVAL, m |-> "none", canon |-> <<>>, validated |-> FALSE]
     ELSE S!Outcome(Enabled, ev.s, ev.pl)
+\* the specification's outcome of every recorded request, evaluated ONCE for the whole trace (a constant of the
+\* trace; the predicates below refer to it by position, the current event being T[l])
+IsHashEv0(e) == e \in {"crypt_rn", "crypt_r", "xcrypt_r", "crypt", "fcrypt", "xcrypt", "crypt_ra"}
+SOTable == TLCEval([i \in 1..Len(T) |-> IF IsHashEv0(T[i].e) THEN SpecOutcomeOf(T[i]) ELSE [k |-> "none"]])
+SpecOutcomeAt(i) == SOTable[i]
 
 \* an injected failure that the call could not recover from.  The one documented recovery is
 \* the huge-page attempt of the yescrypt region (op "H"): when it fails the plain mapping is tried.
@@ -80,7 +85,7 @@ KeyFor(ev) == IF KeyLearned(ev) THEN T[ev.kprev].out ELSE ev.out
 
 \* resolve the model's outcome into the record the predicates need
 Resolve(ev) ==
-  LET o == SpecOutcome(ev)
+  LET o == SpecOutcomeAt(l)
       faulted == AnyFault(ev) /\ ~ReallocFailed(ev)      \* a mapping request failed inside the method
       k == IF faulted THEN "fail"
            ELSE IF o.k = "either" THEN (IF ObservedSuccess(ev) THEN "ok" ELSE "fail") ELSE o.k
@@ -130,31 +135,31 @@ SigDiff(a, b, oa, ob) ==
   /\ (oa.canon # ob.canon \/ S!PhraseKey(oa.m, a.pc, Len(a.s)) # S!PhraseKey(ob.m, b.pc, Len(b.s)))
 A_Distinct(ev) ==
   (ev.bprev > 0 /\ ev.bprev < l /\ IsHashEv(T[ev.bprev].e) /\ ObservedSuccess(T[ev.bprev]) /\ ObservedSuccess(ev)
-     /\ SigDiff(T[ev.bprev], ev, SpecOutcome(T[ev.bprev]), SpecOutcome(ev)))
+     /\ SigDiff(T[ev.bprev], ev, SpecOutcomeAt(ev.bprev), SpecOutcomeAt(l)))
 \* (vacuity guard) a probe on which a false accept would show: a base that hashed, a changed setting the specification refuses
 A_FalseAcceptProbe(ev) ==
   ev.bprev > 0 /\ ev.bprev < l /\ IsHashEv(T[ev.bprev].e) /\ ObservedSuccess(T[ev.bprev])
-     /\ SpecOutcome(T[ev.bprev]).k = "ok" /\ SpecOutcome(ev).k = "fail" /\ SpecOutcome(ev).m = SpecOutcome(T[ev.bprev]).m
+     /\ SpecOutcomeAt(ev.bprev).k = "ok" /\ SpecOutcomeAt(l).k = "fail" /\ SpecOutcomeAt(l).m = SpecOutcomeAt(ev.bprev).m
      /\ ev.s # T[ev.bprev].s
 C_Distinct(ev) ==
   A_Distinct(ev)
-  => LET m == SpecOutcome(ev).m IN
+  => LET m == SpecOutcomeAt(l).m IN
      S!DigestTail(m, T[ev.bprev].out, T[ev.bprev].pl, Len(T[ev.bprev].s)) # S!DigestTail(m, ev.out, ev.pl, Len(ev.s))
 \* C03, second clause: a changed salt/cost field that the specification says must be REFUSED, accepted by the
 \* code and hashed to the base's digest (a cost parsed into a narrower type, a salt character aliased by the
 \* decoder): two different settings, one hash part.
 C_FalseAccept(ev) ==
   (ev.bprev > 0 /\ ev.bprev < l /\ IsHashEv(T[ev.bprev].e) /\ ObservedSuccess(T[ev.bprev]) /\ ObservedSuccess(ev)
-     /\ SpecOutcome(T[ev.bprev]).k = "ok" /\ SpecOutcome(ev).k = "fail" /\ SpecOutcome(ev).m = SpecOutcome(T[ev.bprev]).m
+     /\ SpecOutcomeAt(ev.bprev).k = "ok" /\ SpecOutcomeAt(l).k = "fail" /\ SpecOutcomeAt(l).m = SpecOutcomeAt(ev.bprev).m
      /\ ev.s # T[ev.bprev].s /\ ev.pc = T[ev.bprev].pc)
-  => LET m == SpecOutcome(T[ev.bprev]).m IN
+  => LET m == SpecOutcomeAt(ev.bprev).m IN
      S!DigestTail(m, T[ev.bprev].out, T[ev.bprev].pl, Len(T[ev.bprev].s)) # S!DigestTail(m, ev.out, ev.pl, Len(ev.s))
 \* the converse (documented insignificance) is not a property here: counted as a divergence only
 C_SameKeySame(ev) ==
   (ev.bprev > 0 /\ ev.bprev < l /\ IsHashEv(T[ev.bprev].e) /\ ObservedSuccess(T[ev.bprev]) /\ ObservedSuccess(ev)
-     /\ SpecOutcome(ev).k = "ok" /\ SpecOutcome(T[ev.bprev]).k = "ok" /\ SpecOutcome(ev).m = SpecOutcome(T[ev.bprev]).m
-     /\ SpecOutcome(ev).canon = SpecOutcome(T[ev.bprev]).canon
-     /\ S!PhraseKey(SpecOutcome(ev).m, ev.pc, Len(ev.s)) = S!PhraseKey(SpecOutcome(ev).m, T[ev.bprev].pc, Len(T[ev.bprev].s)))
+     /\ SpecOutcomeAt(l).k = "ok" /\ SpecOutcomeAt(ev.bprev).k = "ok" /\ SpecOutcomeAt(l).m = SpecOutcomeAt(ev.bprev).m
+     /\ SpecOutcomeAt(l).canon = SpecOutcomeAt(ev.bprev).canon
+     /\ S!PhraseKey(SpecOutcomeAt(l).m, ev.pc, Len(ev.s)) = S!PhraseKey(SpecOutcomeAt(l).m, T[ev.bprev].pc, Len(T[ev.bprev].s)))
   => ev.out = T[ev.bprev].out
 \* C10: a setting produced by crypt_gensalt* hashes successfully and is kept literally in the hash
 \* C02 (cross-release): the interpretation of the uninterpreted Hash on the corpus is the graph of the
@@ -162,9 +167,9 @@ C_SameKeySame(ev) ==
 \* /verif/golden); a call of the tree under test must reproduce it byte for byte.
 A_Released(ev) ==
   (ev.rel = 0 /\ ev.rprev > 0 /\ ev.rprev < l /\ IsHashEv(T[ev.rprev].e) /\ T[ev.rprev].rel = 1 /\ SameRequest(T[ev.rprev], ev)
-     /\ SpecOutcome(ev).k # "fail"         \* (a method disabled in this configuration is specified to be refused)
+     /\ SpecOutcomeAt(l).k # "fail"         \* (a method disabled in this configuration is specified to be refused)
      \* the same method computes it in the reference library (bigcrypt and descrypt share their setting space)
-     /\ S!Effective(SpecOutcome(ev).m, ev.pl, Len(ev.s)) = S!Effective(S!Dispatch(S!AllMethods, ev.s), ev.pl, Len(ev.s)))
+     /\ S!Effective(SpecOutcomeAt(l).m, ev.pl, Len(ev.s)) = S!Effective(S!Dispatch(S!AllMethods, ev.s), ev.pl, Len(ev.s)))
 C02_Released(ev) ==
   A_Released(ev)
   => (ev.out = T[ev.rprev].out /\ ObservedSuccess(ev) = ObservedSuccess(T[ev.rprev]))
@@ -187,6 +192,8 @@ C_Balanced(ev) == ev.livemap = 0 /\ ev.badfree = 0 /\ ev.liveheap = ev.hlive
 
 AntNames == {"FailClosed", "FailClosedStaleErrno", "ShortSizes", "Wiped", "Result", "ResultNonzeroErrno", "UninitDependence", "AsIfAlone",
              "Grow", "Handle", "RoundTrip", "Distinct", "FalseAcceptProbe", "Literal", "Released", "Balanced", "Shape"}
+\* (the argument is forced with TLCEval at the call site: a lazy argument would be re-evaluated for every n)
+AddAnts(f, a) == [n \in AntNames |-> f[n] + (IF n \in a THEN 1 ELSE 0)]
 V(p, n) == [l |-> l, p |-> p, n |-> n]
 PropOf(n) == CASE n \in {"FailClosed", "NoStale", "Token", "ShortSizes"} -> "C05"
                [] n = "Wiped" -> "C09" [] n = "Result" -> "C07" [] n = "Grow" -> "C14"
@@ -271,7 +278,7 @@ Step ==
                                !.ok = @ + (IF ObservedSuccess(ev) THEN 1 ELSE 0),
                                !.failed = @ + (IF ObservedSuccess(ev) THEN 0 ELSE 1),
                                !.faulted = @ + (IF AnyFault(ev) THEN 1 ELSE 0),
-                               !.ant = [n \in AntNames |-> @[n] + (IF n \in j.ants THEN 1 ELSE 0)]]
+                               !.ant = AddAnts(@, TLCEval(j.ants))]
      ELSE IF ev.e = "obj" THEN
         /\ st' = SetSt(ev.o, IF ev.fill = 0 THEN FreshObj ELSE JunkObj)
         /\ UNCHANGED <<viol, div, cnt>>
